@@ -88,6 +88,11 @@ func bagEq(a, b kvBag) bool {
 
 // c03Run drives one request and returns, per rule id, the bag of (key, value) the rule saw.
 func c03Run(w coraza.WAF, uri string, headers [][2]string, ct string, body []byte) (map[int]kvBag, string, string) {
+	return c03RunChunks(w, uri, headers, ct, body, 0)
+}
+
+// c03RunChunks hands the body over in two pieces (the first `first` bytes, then the rest) when first > 0.
+func c03RunChunks(w coraza.WAF, uri string, headers [][2]string, ct string, body []byte, first int) (map[int]kvBag, string, string) {
 	var p string
 	out := map[int]kvBag{}
 	errInfo := ""
@@ -111,7 +116,14 @@ func c03Run(w coraza.WAF, uri string, headers [][2]string, ct string, body []byt
 		var it *types.Interruption
 		it = tx.ProcessRequestHeaders()
 		if it == nil && body != nil {
-			it, _, _ = tx.WriteRequestBody(body)
+			if first > 0 && first < len(body) {
+				it, _, _ = tx.WriteRequestBody(body[:first])
+				if it == nil {
+					it, _, _ = tx.WriteRequestBody(body[first:])
+				}
+			} else {
+				it, _, _ = tx.WriteRequestBody(body)
+			}
 		}
 		if it == nil {
 			it, _ = tx.ProcessRequestBody()
@@ -213,6 +225,18 @@ func C03(run *vf.Run) {
 		return
 	}
 	defer closeAny(wXML)
+	wBodyRej, err := coraza.NewWAF(coraza.NewWAFConfig().WithDirectives(c03Rules + "SecRequestBodyLimit 8\nSecRequestBodyInMemoryLimit 8\nSecRequestBodyLimitAction Reject\n"))
+	if err != nil {
+		run.Inconclusive("C03 rules rejected: %v", err)
+		return
+	}
+	defer closeAny(wBodyRej)
+	wBodyPart, err := coraza.NewWAF(coraza.NewWAFConfig().WithDirectives(c03Rules + "SecRequestBodyLimit 8\nSecRequestBodyInMemoryLimit 8\nSecRequestBodyLimitAction ProcessPartial\n"))
+	if err != nil {
+		run.Inconclusive("C03 rules rejected: %v", err)
+		return
+	}
+	defer closeAny(wBodyPart)
 	reported := map[string]bool{}
 	var rmu sync.Mutex
 	report := func(kind, channel, variable string, c *encCase, detail string) {
@@ -288,6 +312,15 @@ func C03(run *vf.Run) {
 					check(c, "urlencoded-body", got, 6, "ARGS_POST_NAMES", names)
 					check(c, "urlencoded-body", got, 11, "REQUEST_BODY", [][2]string{{"", string(c.Query)}})
 					check(c, "urlencoded-body", got, 1, "ARGS_GET", nil)
+				}
+				// the body arrives in two pieces, the first filling SecRequestBodyLimit exactly: reported, or all there
+				if len(c.Query) > 8 {
+					for _, wl := range []coraza.WAF{wBodyRej, wBodyPart} {
+						got, info, p := c03RunChunks(wl, "/p", nil, "application/x-www-form-urlencoded", []byte(c.Query), 8)
+						if p == "" && info == "" && !bagEq(bagOf(kv), got[2]) {
+							report("dropped-silently", "urlencoded-body+SecRequestBodyLimit", "ARGS_POST", c, fmt.Sprintf("body of %d bytes written as 8 + %d against a limit of 8: rules see %s of the data %s and no error variable / interruption reports the loss", len(c.Query), len(c.Query)-8, got[2], bagOf(kv)))
+						}
+					}
 				}
 				// the same list in the query string and in the body: ARGS is the union, each kept apart
 				got, _, p = c03Run(w, "/p?"+string(c.Query), nil, "application/x-www-form-urlencoded", []byte(c.Query))
